@@ -1443,6 +1443,14 @@ private:
     bool
     pendingAttributesHasDefaultNS() const; 
 
+    /**
+     * Remove every pending attribute whose expanded name is also the
+     * expanded name of an attribute added later (with another prefix),
+     * so that the later one replaces it.
+     */
+    void
+    removeReplacedPendingAttributes();
+
     void
     addResultNamespace(
             const XalanDOMString&   thePrefix,
